@@ -412,7 +412,7 @@ class ConfParser:
                     is_continue = False
 
                 if line.find("=") != -1:
-                    left, right = [x.strip() for x in line.split("=")]
+                    left, right = [x.strip() for x in line.split("=", 1)]
                     self._confs[left.lower()] = right
 
                 if line.find("+++") != -1:
